@@ -20,6 +20,7 @@ import Tengo.Drivers.C14
 import Tengo.Drivers.C06
 import Tengo.Drivers.C08
 import Tengo.Drivers.C04
+import Tengo.Drivers.VM
 /-!
 Line-protocol driver: one S-expression `(cmd arg…)` per input line, one answer
 line per input line. The only `partial def` of the project is the IO loop.
@@ -45,6 +46,7 @@ def allHandlers : List (String × (List Sexp → String)) :=
   Tengo.Drivers.C16.handlers ++
   Tengo.Drivers.C11.handlers ++
   Tengo.Drivers.C14.handlers ++
+  Tengo.Drivers.VM.handlers ++
   Tengo.Drivers.C06.handlers ++
   Tengo.Drivers.C08.handlers ++
   Tengo.Drivers.C04.handlers
